@@ -212,7 +212,40 @@ var helpers = func() (hs [3]*wsflate.Helper) {
 	return
 }()
 
-func helperOf(s spec) *wsflate.Helper { return helpers[int(s.seed)%3] }
+// One session in four works with the library's SHARED default helper instead of one of its own.
+func helperOf(s spec) *wsflate.Helper {
+	if s.seed%4 == 3 {
+		return &wsflate.DefaultHelper
+	}
+	return helpers[int(s.seed)%3]
+}
+
+// sessionFlate compresses one message of a Writer/Reader-stack session into w. Half of the sessions keep ONE
+// wsflate.Writer for the life of the connection - Reset, Write, Flush, Close per message, the documented way to re-use
+// it - built on the constructor of the library's default helper (which every session using the defaults shares); the
+// others make a new one per message from their own constructor.
+func sessionFlate(s spec, keep **wsflate.Writer, w io.Writer, p []byte) error {
+	if s.seed%2 == 1 {
+		fw := wsflate.NewWriter(w, newFlateWriter)
+		if _, err := fw.Write(p); err != nil {
+			return err
+		}
+		return fw.Flush()
+	}
+	if *keep == nil {
+		*keep = wsflate.NewWriter(w, wsflate.DefaultHelper.Compressor)
+	} else {
+		(*keep).Reset(w)
+	}
+	fw := *keep
+	if _, err := fw.Write(p); err != nil {
+		return err
+	}
+	if err := fw.Flush(); err != nil {
+		return err
+	}
+	return fw.Close()
+}
 
 // ---- server side
 
@@ -225,6 +258,7 @@ func serve(s spec, conn net.Conn, hs ws.Handshake, herr error, t *transcript) {
 	st := ws.StateServerSide
 	fc := &faultConn{Conn: conn}
 	conn = fc
+	var sfw *wsflate.Writer
 	for mi := 0; ; mi++ {
 		if s.fault == 2 && mi == s.faultAt {
 			fc.arm()
@@ -319,11 +353,7 @@ func serve(s spec, conn net.Conn, hs ws.Handshake, herr error, t *transcript) {
 					wms.SetCompressed(true)
 					w := wsutil.GetWriter(conn, st, op, 256)
 					w.SetExtensions(wms)
-					fw := wsflate.NewWriter(w, newFlateWriter)
-					_, err = fw.Write(payload)
-					if err == nil {
-						err = fw.Flush()
-					}
+					err = sessionFlate(s, &sfw, w, payload)
 					if err == nil {
 						err = w.Flush()
 					}
@@ -549,6 +579,7 @@ func runSession(s spec) *transcript {
 	st := ws.StateClientSide
 	cfc := &faultConn{Conn: conn}
 	conn = cfc
+	var cfw *wsflate.Writer // (kept for the life of the connection by half of the stack sessions, see sessionFlate)
 	for i := 0; i < s.nmsg; i++ {
 		if s.fault == 1 && i == s.faultAt {
 			cfc.arm()
@@ -620,11 +651,7 @@ func runSession(s spec) *transcript {
 			w := wsutil.GetWriter(conn, st, op, 128)
 			w.SetExtensions(wms)
 			if wms.IsCompressed() {
-				fw := wsflate.NewWriter(w, newFlateWriter)
-				_, err = fw.Write(p)
-				if err == nil {
-					err = fw.Flush()
-				}
+				err = sessionFlate(s, &cfw, w, p)
 			} else {
 				_, err = w.Write(p)
 			}
